@@ -8036,6 +8036,11 @@ ancestor_mapper_init(ancestor_mapper_t *self, tsk_id_t *samples, tsk_size_t num_
         ret = tsk_trace_error(TSK_ERR_BAD_PARAM_VALUE);
         goto out;
     }
+    /* Edge parent and child ids index per-node arrays below */
+    ret = (int) tsk_table_collection_check_integrity(tables, 0);
+    if (ret != 0) {
+        goto out;
+    }
 
     /* Allocate the heaps used for small objects-> Assuming 8K is a good chunk size
      */
@@ -8773,6 +8778,11 @@ tsk_ibd_finder_init(tsk_ibd_finder_t *self, const tsk_table_collection_t *tables
     self->max_time = max_time;
     self->min_span = min_span;
 
+    /* Edge parent and child ids index per-node arrays below */
+    ret = (int) tsk_table_collection_check_integrity(tables, 0);
+    if (ret != 0) {
+        goto out;
+    }
     ret = tsk_blkalloc_init(&self->segment_heap, 8192);
     if (ret != 0) {
         goto out;
